@@ -547,6 +547,10 @@ def _isfloatlike(e):
 
 
 def array(x, dtype=None):
+    if isinstance(x, ndarray) and x.fcontig and _strwidth(dtype) is None:
+        # numpy copies with order='K': a transposed (column-major in memory) array stays column-major
+        r = array(x.T, dtype=dtype).T
+        return r
     flat, shape = _flatten_nested(x)
     w = _strwidth(dtype)
     if w is not None or (flat and builtins.all(isinstance(e, str) for e in flat)):
